@@ -76,7 +76,8 @@ Definition oqout_eqb (a b : option qout) : bool :=
 Inductive qitem :=
 | QStart (r : nat) (early0 : bool) (rq : qreq) (over : option qout) (sn : option esnap)
     (* the request up to the return of GetOrCreate; over = Some: it was answered without getting a cursor *)
-| QFinish (r : nat) (k : N) (out : qout) (sn : option esnap)      (* k records read, Release *)
+| QFinish (r : nat) (k : N) (e : read_end) (out : qout) (sn : option esnap)
+    (* k records read, the loop ended normally or on a read fault, Release *)
 | QOp (o : op) (sn : option esnap).                               (* OTick / OSweepTime / OSweepSize / OShutdown *)
 
 (* the steps an item stands for: a request that is over at its start still makes a whole block (the rest does nothing) *)
@@ -87,7 +88,7 @@ Definition item_ops (it : qitem) : list op :=
     | GRun c => start_ops r rq c ++ (match over with Some _ => finish_ops r 0 | None => [] end)
     | _ => []
     end
-  | QFinish r k _ _ => finish_ops r k
+  | QFinish r k e _ _ => finish_ops_v false r k e
   | QOp o _ => [o]
   end.
 
@@ -104,10 +105,10 @@ Fixpoint run_q (np : nat) (s : prov) (items : list qitem) : bool :=
          | GEmpty => oqout_eqb over (Some QoEmpty)
          | GRun _ => oqout_eqb (start_out (firstn 3 rs)) over
          end
-       | QFinish _ _ out _ => qout_eqb (finish_out rs) out
+       | QFinish _ _ _ out _ => qout_eqb (finish_out rs) out
        | QOp _ _ => true
        end)
-      && esnap_ok np s' (match it with QStart _ _ _ _ sn | QFinish _ _ _ sn | QOp _ sn => sn end)
+      && esnap_ok np s' (match it with QStart _ _ _ _ sn | QFinish _ _ _ _ sn | QOp _ sn => sn end)
       && run_q np s' l
     | _ => false
     end
